@@ -17,11 +17,16 @@
 //	precedence  every presence/rule assignment of the 4 levels over a reduced rule menu x reduced candidates
 //	install     the same three ideas for InstallCandidate.Check (snap-declaration rule, else base rule; per slot
 //	            and per plug)
+//	names       plug-names/slot-names atoms generated from the documented entry shapes (a|b, a|b|c, (a|b)c, a[0-9],
+//	            $INTERFACE, literal; single entries and ordered two-entry lists) x candidate names generated from
+//	            every entry (exact, suffix appended, prefix prepended, none) in the complete plug name x slot name
+//	            product, through atoms / rules / precedence / install again; an entry matches the WHOLE name
 package c21_test
 
 import (
 	"encoding/json"
 	"fmt"
+	"regexp"
 	"sort"
 	"strings"
 	"sync"
@@ -255,6 +260,178 @@ func init() {
 
 var atoms = map[string]*atomDef{}
 
+// ------------------------------------------------------------------------------------------------
+// name constraints: the entry shapes of the assertion format x candidate names derived from every entry
+// ------------------------------------------------------------------------------------------------
+
+// nameEntry: one plug-names / slot-names entry. The documented meaning: the entry is a regexp (or the special
+// value $INTERFACE) that must match the WHOLE plug/slot name.
+type nameEntry struct {
+	Short string
+	Entry string            // header spelling
+	Alts  []string          // names the entry spells out (for the character class: two representatives)
+	Lang  func(string) bool // the language of the entry written without regexp (nil: exactly Alts); arbiter of the reference
+}
+
+var nameEntries = []nameEntry{
+	{"top", "admin|debug", []string{"admin", "debug"}, nil},           // top-level alternation
+	{"top3", "raw|mid|unsafe", []string{"raw", "mid", "unsafe"}, nil}, // ... with a middle alternative
+	{"paren", "(in|out)put", []string{"input", "output"}, nil},        // parenthesised alternation
+	{"class", "port[0-9]", []string{"port0", "port9"}, func(n string) bool { // character class
+		return len(n) == 5 && n[:4] == "port" && n[4] >= '0' && n[4] <= '9'
+	}},
+	{"iface", "$INTERFACE", []string{ifaceName}, nil}, // special value
+	{"lit", "alt", []string{"alt"}, nil},              // literal
+}
+
+// candidateNames: for every entry and every name it spells out: the exact name, a strict extension with the name
+// as a prefix, a strict extension with the name as a suffix; plus a class position filled by a non-member and a
+// name matching no entry at all.
+func candidateNames() []string {
+	seen := map[string]bool{}
+	var res []string
+	add := func(n string) {
+		if !seen[n] {
+			seen[n] = true
+			res = append(res, n)
+		}
+	}
+	for _, e := range nameEntries {
+		for _, a := range e.Alts {
+			add(a)
+			add(a + "-x")
+			add("x" + a)
+		}
+	}
+	add("porta")
+	add("zzz")
+	return res
+}
+
+var nameRx = map[string]*regexp.Regexp{}
+
+// nameTable caches the reference answer for the generated (entry, candidate name) combinations.
+var nameTable = map[[2]string]bool{}
+
+// entryMatchesWholeName is the reference meaning of one entry: $INTERFACE stands for the interface name, anything
+// else is a regexp that has to match the name from its first to its last character.
+func entryMatchesWholeName(entry, name string) bool {
+	if entry == "$INTERFACE" {
+		return name == ifaceName
+	}
+	if v, ok := nameTable[[2]string{entry, name}]; ok {
+		return v
+	}
+	return nameRx[entry].MatchString(name)
+}
+
+// nameListMatches: a names constraint is a list of entries; the name has to match one of them.
+func nameListMatches(entries []string, name string) bool {
+	for _, e := range entries {
+		if entryMatchesWholeName(e, name) {
+			return true
+		}
+	}
+	return false
+}
+
+var nameAtomList []atomDef
+
+func nameAtomName(key string, idx ...int) string {
+	var ns []string
+	for _, i := range idx {
+		ns = append(ns, nameEntries[i].Short)
+	}
+	return key + "=[" + strings.Join(ns, ",") + "]"
+}
+
+// nameAtomNames: the generated atoms of one key: every single entry (singles), every ordered list of two
+// different entries (lists).
+func nameAtomNames(key string) (singles, lists []string) {
+	for i := range nameEntries {
+		singles = append(singles, nameAtomName(key, i))
+	}
+	for i := range nameEntries {
+		for j := range nameEntries {
+			if i != j {
+				lists = append(lists, nameAtomName(key, i, j))
+			}
+		}
+	}
+	return singles, lists
+}
+
+func init() {
+	cnames := candidateNames()
+	for _, e := range nameEntries {
+		if strings.HasPrefix(e.Entry, "$") {
+			continue
+		}
+		nameRx[e.Entry] = regexp.MustCompile("^(?:" + e.Entry + ")$")
+	}
+	// the reference against its arbiters on every (entry, candidate name): the language written out by hand, and
+	// the leftmost-longest match of the entry compiled without any anchoring covering the whole name
+	for _, e := range nameEntries {
+		for _, n := range cnames {
+			want := in(n, e.Alts...)
+			if e.Lang != nil {
+				want = e.Lang(n)
+			}
+			got := entryMatchesWholeName(e.Entry, n)
+			if got != want {
+				eng.HarnessError("name reference: entry %q on name %q: regexp says %v, the written-out language says %v", e.Entry, n, got, want)
+			}
+			if !strings.HasPrefix(e.Entry, "$") {
+				rx := regexp.MustCompile(e.Entry)
+				rx.Longest()
+				loc := rx.FindStringIndex(n)
+				if whole := loc != nil && loc[0] == 0 && loc[1] == len(n); whole != want {
+					eng.HarnessError("name reference: entry %q on name %q: leftmost-longest match %v, the written-out language says %v", e.Entry, n, loc, want)
+				}
+			}
+		}
+	}
+	for _, e := range nameEntries {
+		for _, n := range cnames {
+			nameTable[[2]string{e.Entry, n}] = entryMatchesWholeName(e.Entry, n)
+		}
+	}
+	for _, k := range []struct {
+		key   string
+		sides int
+		name  func(c *cand) string
+	}{
+		{"plug-names", plugConn | slotConn | plugInst, func(c *cand) string { return c.PlugName }},
+		{"slot-names", plugConn | slotConn | slotInst, func(c *cand) string { return c.SlotName }},
+	} {
+		k := k
+		add := func(idx ...int) {
+			var es []string
+			for _, i := range idx {
+				es = append(es, nameEntries[i].Entry)
+			}
+			nameAtomList = append(nameAtomList, atomDef{nameAtomName(k.key, idx...), k.key, strList(es...), k.sides, func(c *cand) bool {
+				return nameListMatches(es, k.name(c))
+			}})
+		}
+		for i := range nameEntries {
+			add(i)
+		}
+		for i := range nameEntries {
+			for j := range nameEntries {
+				if i != j {
+					add(i, j)
+				}
+			}
+		}
+	}
+	for i := range nameAtomList {
+		if atoms[nameAtomList[i].Name] != nil {
+			panic("duplicate atom " + nameAtomList[i].Name)
+		}
+		atoms[nameAtomList[i].Name] = &nameAtomList[i]
+	}
+}
 
 // ------------------------------------------------------------------------------------------------
 // rule descriptions
@@ -1079,14 +1256,16 @@ func pick(maps []cmap, names ...string) []cmap {
 
 const rule = "atoms: every constraint map of one atom (x the full candidate product) or two atoms with different keys (quick: x the medium product), as the only allow / only deny alternative of a rule at each level where its side applies; " +
 	"rules: every (allow, deny) pair of {absent,true,false,map,[map],[map,map]} over a reduced map menu at each of the 4 levels x reduced candidates (connection and auto-connection carry different specs), plus monotonicity of the implementation's answers under added deny alternatives; " +
-	"precedence: every assignment of {no rule, 6 rules} to the 4 levels x reduced candidates; install: the same for InstallCandidate.Check with the snap-declaration and base-declaration plug and slot rules. " +
+	"precedence: every assignment of {no rule, 6 rules} to the 4 levels x reduced candidates; install: the same for InstallCandidate.Check with the snap-declaration and base-declaration plug and slot rules; " +
+	"names: plug-names/slot-names atoms generated from the entry shapes {a|b, a|b|c, (a|b)c, a[0-9], $INTERFACE, literal} (every single entry, every ordered two-entry list) x candidate names generated from every entry (each spelled-out name, the name with a suffix appended, the name with a prefix prepended, a non-member in the class position, a name matching nothing) in the complete plug name x slot name product: alone, plug-names with slot-names, with an attribute atom, in (allow, deny) alternative lists with the monotonicity law, in 4-level precedence, and the same for installation. " +
 	"Oracle: first present level decides, matching deny refuses, else some allow alternative must fully match. " +
 	"distinct_nontrivial = evaluations whose deciding rule has a constraint map (not a shortcut) in its allow or deny entry"
 
 func TestC21(t *testing.T) {
-	r := eng.Start("C21", "exploration", 100*time.Second, 14*time.Minute)
+	r := eng.Start("C21", "exploration", 150*time.Second, 14*time.Minute)
 	r.Assume(
 		"reference evaluator written from the statement: first present of (plug snap-declaration plug rule, slot snap-declaration slot rule, base plug rule, base slot rule) decides; a matching deny alternative refuses; otherwise one allow alternative must match completely; absent allow-* = true, absent deny-* = false; a snap without snap-declaration has no rules, no snap-id and no publisher",
+		"a plug-names/slot-names constraint is a list of entries of which one must match; an entry is $INTERFACE (the interface name) or a regexp that must match the WHOLE name: reference = Go regexp ^(?:entry)$, cross-checked at start-up on every (entry, candidate name) against the language of the entry written out by hand and against the leftmost-longest match of the unanchored entry spanning the name",
 		"atom meanings (regexp attribute match, $MISSING, $SLOT()/$PLUG(), snap type with os/snapd = core, id lists, $PLUG_PUBLISHER_ID/$SLOT_PUBLISHER_ID, on-classic incl. distro list, on-store incl. friendly stores, on-brand, on-model, plug-names/slot-names incl. $INTERFACE) are written from the assertion format documentation",
 		"assertions are assembled unsigned (asserts.Assemble); signature checking is C18's subject",
 		"slots-per-plug arity results are not examined",
@@ -1259,22 +1438,179 @@ func TestC21(t *testing.T) {
 		}
 	}
 
-	// ---- layer "atoms" (the largest one, run last so that a time cap cannot hide the others) ----
+	atomDecls := func(maps []cmap, levels []string) []*declSet {
+		var decls []*declSet
+		for _, m := range maps {
+			one := altSpec{Mode: "list", Maps: []cmap{m}}
+			bare := altSpec{Mode: "map", Maps: []cmap{m}}
+			for _, lv := range levels {
+				// as the only allow alternative (connection) / the only deny alternative (auto-connection), and the other way round
+				decls = append(decls,
+					atLevel(lv, &fullRule{Conn: &ruleSpec{Allow: one}, Auto: &ruleSpec{Deny: bare}}),
+					atLevel(lv, &fullRule{Conn: &ruleSpec{Deny: one}, Auto: &ruleSpec{Allow: bare}}))
+			}
+		}
+		return decls
+	}
+
+	// ---- layers "names*": the generated plug-names/slot-names atoms x the generated candidate names ----
+	// Reduction: the name atoms do not go through the full 31104-candidate product; the dimensions a name
+	// constraint cannot see (snap types, attribute c, environment, device scope, second publisher) are fixed, the
+	// plug name x slot name product is complete, and both sides are asserted or not (so that each of the four
+	// levels is reachable). The layers about rule structure (with an attribute atom, alternative lists) use the
+	// same name product with both sides asserted only (every level still decides when it is the only one present).
+	cnames := candidateNames()
+	nameIdents := I(0, 1)
+	if thorough {
+		nameIdents = I(0, 1, 2)
+	}
+	nameCands := connCands(S("app"), S(cnames...), S(""), S("x"), nameIdents, S("app"), S(cnames...), S("S1"), nameIdents, I(0), I(0))
+	allLevels := []string{"PS", "SS", "BP", "BS"}
+	plugSingles, plugLists := nameAtomNames("plug-names")
+	slotSingles, slotLists := nameAtomNames("slot-names")
 	if !rn.full() {
-		atomDecls := func(maps []cmap, levels []string) []*declSet {
-			var decls []*declSet
+		// every name atom alone; every single-entry plug-names atom together with every single-entry slot-names atom
+		var maps []cmap
+		for _, n := range append(append(append(append([]string{}, plugSingles...), plugLists...), slotSingles...), slotLists...) {
+			maps = append(maps, cmap{n})
+		}
+		for _, p := range plugSingles {
+			for _, s := range slotSingles {
+				maps = append(maps, cmap{p, s})
+			}
+		}
+		rn.sweep("names", atomDecls(maps, allLevels), nameCands, connKinds, nil)
+	}
+	if !rn.full() {
+		// every single-entry name atom together with an attribute atom of the same and of the other side
+		var maps []cmap
+		for _, n := range append(append([]string{}, plugSingles...), slotSingles...) {
+			maps = append(maps, cmap{n, "plug-p=P1"}, cmap{n, "slot-s=S1"})
+		}
+		cands := connCands(S("app"), S(cnames...), S("", "P1"), S("x"), I(1), S("app"), S(cnames...), S("S1", "S2"), I(1), I(0), I(0))
+		rn.sweep("names_with_attribute", atomDecls(maps, allLevels), cands, connKinds, nil)
+	}
+	nameMenu := pick(nil, "plug-names=[top]", "slot-names=[paren]", "plug-names=[class]&slot-names=[iface]", "slot-names=[lit,top3]")
+	if !rn.full() {
+		// alternative lists of name maps (allow x deny) at each level, with the monotonicity law
+		specs := ruleSpecs(altOptions(nameMenu, thorough))
+		rules := connRules(specs)
+		nameCands := connCands(S("app"), S(cnames...), S(""), S("x"), I(1), S("app"), S(cnames...), S("S1"), I(1), I(0), I(0))
+		for _, lv := range allLevels {
+			if rn.full() {
+				break
+			}
+			decls := make([]*declSet, len(rules))
+			for i, f := range rules {
+				decls[i] = atLevel(lv, f)
+			}
+			verdict := make([][]bool, len(rules))
+			for i := range verdict {
+				verdict[i] = make([]bool, len(nameCands))
+			}
+			rn.sweep("name_rules", decls, nameCands, connKinds, func(di, ci int, kind string, allowed bool) {
+				if kind == "connection" {
+					verdict[di][ci] = allowed
+				}
+			})
+			rn.monotonic(lv, specs, decls, verdict, nameCands)
+		}
+	}
+	if !rn.full() {
+		// precedence: {no rule, 3 name rules} at each of the four levels
+		nr := []*ruleSpec{
+			{Allow: altSpec{Mode: "list", Maps: pick(nil, "plug-names=[top]")}},
+			{Deny: altSpec{Mode: "map", Maps: pick(nil, "slot-names=[paren]")}},
+			{Allow: altSpec{Mode: "list", Maps: pick(nil, "plug-names=[class]", "slot-names=[iface]")}, Deny: altSpec{Mode: "list", Maps: pick(nil, "plug-names=[top3]&slot-names=[lit]")}},
+		}
+		opt := append([]*fullRule{nil}, connRules(nr)...)
+		var decls []*declSet
+		for _, ps := range opt {
+			for _, ss := range opt {
+				for _, bp := range opt {
+					for _, bs := range opt {
+						decls = append(decls, &declSet{PS: ps, SS: ss, BP: bp, BS: bs})
+					}
+				}
+			}
+		}
+		rn.sweep("name_precedence", decls, nameCands, connKinds, nil)
+	}
+	var instNameCands []cand
+	if !rn.full() {
+		// installation: plug-names in the plug rules, slot-names in the slot rules of the snap-declaration and of
+		// the base-declaration; every name atom alone and every single-entry one with an attribute atom, as the only
+		// allow and as the only deny alternative; the snap has a plug, a slot or both (complete name product)
+		instNameCands = installCands(S("app"), S(cnames...), S("", "P1"), S(cnames...), S("S1", "S2"), nameIdents, I(0), I(0), S("plug", "slot", "both"))
+		var decls []*declSet
+		for _, side := range []struct {
+			singles, lists []string
+			attr           string
+			levels         []string
+		}{{plugSingles, plugLists, "plug-p=P1", []string{"SP", "BP"}}, {slotSingles, slotLists, "slot-s=S1", []string{"SL", "BS"}}} {
+			var maps []cmap
+			for _, n := range append(append([]string{}, side.singles...), side.lists...) {
+				maps = append(maps, cmap{n})
+			}
+			for _, n := range side.singles {
+				maps = append(maps, cmap{n, side.attr})
+			}
 			for _, m := range maps {
 				one := altSpec{Mode: "list", Maps: []cmap{m}}
 				bare := altSpec{Mode: "map", Maps: []cmap{m}}
-				for _, lv := range levels {
-					// as the only allow alternative (connection) / the only deny alternative (auto-connection), and the other way round
-					decls = append(decls,
-						atLevel(lv, &fullRule{Conn: &ruleSpec{Allow: one}, Auto: &ruleSpec{Deny: bare}}),
-						atLevel(lv, &fullRule{Conn: &ruleSpec{Deny: one}, Auto: &ruleSpec{Allow: bare}}))
+				for _, lv := range side.levels {
+					decls = append(decls, atLevel(lv, &fullRule{Inst: &ruleSpec{Allow: one}}), atLevel(lv, &fullRule{Inst: &ruleSpec{Deny: bare}}))
 				}
 			}
-			return decls
 		}
+		rn.sweep("install_names", decls, instNameCands, instKinds, nil)
+	}
+	if !rn.full() {
+		// installation: alternative lists of name maps (allow x deny), and snap-declaration x base-declaration
+		// precedence with name rules
+		plugNM := pick(nil, "plug-names=[top]", "plug-names=[paren,iface]", "plug-names=[class]&plug-p=P1")
+		slotNM := pick(nil, "slot-names=[top3]", "slot-names=[iface,paren]", "slot-names=[lit]&slot-s=S1")
+		distractor := &ruleSpec{Allow: altSpec{Mode: "false"}, Deny: altSpec{Mode: "true"}}
+		assertedOnly := installCands(S("app"), S(cnames...), S("", "P1"), S(cnames...), S("S1", "S2"), I(1), I(0), I(0), S("plug", "slot", "both"))
+		for _, side := range []struct {
+			menu   []cmap
+			levels []string
+		}{{plugNM, []string{"SP", "BP"}}, {slotNM, []string{"SL", "BS"}}} {
+			specs := ruleSpecs(altOptions(side.menu, thorough))
+			for _, lv := range side.levels {
+				if rn.full() {
+					break
+				}
+				decls := make([]*declSet, len(specs))
+				for i, s := range specs {
+					decls[i] = atLevel(lv, &fullRule{Inst: s, Conn: distractor})
+				}
+				rn.sweep("install_name_rules", decls, assertedOnly, instKinds, nil)
+			}
+		}
+		opt := func(ms []cmap) []*fullRule {
+			return []*fullRule{nil,
+				{Inst: &ruleSpec{Allow: altSpec{Mode: "list", Maps: ms[:1]}}},
+				{Inst: &ruleSpec{Deny: altSpec{Mode: "map", Maps: ms[1:2]}}},
+				{Inst: &ruleSpec{Allow: altSpec{Mode: "list", Maps: ms[1:]}, Deny: altSpec{Mode: "list", Maps: ms[:1]}}}}
+		}
+		var decls []*declSet
+		for _, sp := range opt(plugNM) {
+			for _, sl := range opt(slotNM) {
+				for _, bp := range opt(plugNM) {
+					for _, bs := range opt(slotNM) {
+						decls = append(decls, &declSet{SP: sp, SL: sl, BP: bp, BS: bs})
+					}
+				}
+			}
+		}
+		if !rn.full() {
+			rn.sweep("install_name_precedence", decls, instNameCands, instKinds, nil)
+		}
+	}
+
+	// ---- layer "atoms" (the largest one, run last so that a time cap cannot hide the others) ----
+	if !rn.full() {
 		var single, pair []*declSet
 		for _, side := range []struct {
 			side   int
@@ -1298,7 +1634,11 @@ func TestC21(t *testing.T) {
 	r.Info("bounds", map[string]int{"atoms": len(atomList), "id_list_atoms_generated": 40, "full_candidates": len(full), "reduced_candidates": len(reduced),
 		"plug_side_atoms": countMaps(plugConn, !thorough, false), "plug_side_atom_pairs": countMaps(plugConn, !thorough, true),
 		"slot_side_atoms": countMaps(slotConn, !thorough, false), "slot_side_atom_pairs": countMaps(slotConn, !thorough, true),
-		"alt_options_per_entry": len(altOptions(plugMenu, thorough)), "precedence_rules_per_level": len(plugR)})
+		"alt_options_per_entry": len(altOptions(plugMenu, thorough)), "precedence_rules_per_level": len(plugR),
+		"name_entry_shapes": len(nameEntries), "name_atoms_generated": len(nameAtomList), "candidate_names": len(cnames),
+		"name_candidates": len(nameCands), "install_name_candidates": len(instNameCands), "name_alt_options_per_entry": len(altOptions(nameMenu, thorough))})
+	r.Sample(c21Case{Layer: "names", Kind: "connection", Cand: &nameCands[len(nameCands)/5],
+		Decls: atLevel("BS", &fullRule{Conn: &ruleSpec{Allow: altSpec{Mode: "list", Maps: pick(nil, "plug-names=[top,iface]")}}})})
 	r.Sample(c21Case{Layer: "precedence", Kind: "auto-connection", Cand: &reduced[len(reduced)/2],
 		Decls: &declSet{PS: &fullRule{Conn: plugR[3], Auto: plugR[5]}, BS: &fullRule{Conn: slotR[2], Auto: slotR[0]}}})
 	r.Sample(c21Case{Layer: "atoms", Kind: "connection", Cand: &full[len(full)/3],
